@@ -377,6 +377,40 @@ def gen_B(rng, n, k, cplx):
     return B
 
 
+def smooth_grid(root=False):
+    """every prolongation-smoother option the aggregation constructors accept (names x weighting x degree x filtering /
+    Krylov method); rootnode_solver takes the energy family (and None) only"""
+    g = [None]
+    if not root:
+        g += ['jacobi', 'richardson']
+        for w in ('diagonal', 'block', 'local'):
+            for deg in (1, 2):
+                for fe in (False, True):
+                    g.append(('jacobi', {'omega': 4.0 / 3.0, 'degree': deg, 'weighting': w, 'filter_entries': fe}))
+        for deg in (1, 2):
+            g.append(('richardson', {'omega': 4.0 / 3.0, 'degree': deg}))
+    g.append('energy')
+    for kry in ('cg', 'cgnr', 'gmres'):
+        for w in ('local', 'diagonal', 'block'):
+            for deg in (1, 2):
+                g.append(('energy', {'krylov': kry, 'maxiter': 2, 'degree': deg, 'weighting': w}))
+    g.append(('energy', {'krylov': 'cg', 'maxiter': 2, 'prefilter': {'theta': 0.13}}))
+    g.append(('energy', {'krylov': 'cgnr', 'maxiter': 2, 'postfilter': {'k': 3}}))
+    return g
+
+
+def fit_symmetry(sm, sym, fam):
+    """energy smoothing with CG needs the Hermitian setting; keep the option valid for the symmetry flag"""
+    if name_of(sm) == 'energy':
+        kw = dict(sm[1]) if isinstance(sm, tuple) else {}
+        kry = kw.get('krylov')
+        if (sym == 'nonsymmetric' or fam == 'upwind') and kry in (None, 'cg'):
+            kw['krylov'] = 'gmres' if sym == 'nonsymmetric' else 'cgnr'
+            kw.setdefault('maxiter', 2)
+            return ('energy', kw)
+    return sm
+
+
 def opts_sa(rng, tags, root=False):
     cplx = tags['complex']
     fam = tags['fam']
@@ -396,12 +430,9 @@ def opts_sa(rng, tags, root=False):
     else:
         sm = pick(rng, [('jacobi', {'omega': 4.0 / 3.0}), 'jacobi', ('jacobi', {'omega': 1.0, 'degree': 2}), 'richardson', None,
                         ('energy', {'maxiter': 2}), ('energy', {'krylov': 'cgnr', 'maxiter': 2}), ('energy', {'krylov': 'gmres', 'maxiter': 2})])
-    if name_of(sm) == 'energy':
-        kry = sm[1].get('krylov') if isinstance(sm, tuple) else None
-        if sym == 'nonsymmetric' and kry in (None, 'cg'):
-            sm = ('energy', {'krylov': 'gmres', 'maxiter': 2})
-        if sym != 'nonsymmetric' and kry is None and fam == 'upwind':
-            sm = ('energy', {'krylov': 'cgnr', 'maxiter': 2})
+    if rng.random() < 0.5:
+        sm = pick(rng, smooth_grid(root))            # the whole grid, not only the usual suspects
+    sm = fit_symmetry(sm, sym, fam)
     ic = pick(rng, [None, None, ('gauss_seidel', {'sweep': 'symmetric', 'iterations': 2}),
                     [('block_gauss_seidel', {'sweep': 'symmetric', 'iterations': 4}), None], ('jacobi', {'iterations': 2}),
                     ('richardson', {'iterations': 1})])
@@ -795,6 +826,37 @@ def store_one(ctx, it, o):
         if m[:3] != i[:3] or m[1] != '0' or (i[3] == '1' and m[3] != '1'):
             ctx.corr('c15_store', {'line': line, **case_summary(case, fmt, bs)}, o, impl)
             # independent judgement: purity of this very build is decided by the snapshots in eval_build_case
+
+
+def smoother_core(ctx, q):
+    """a fixed core that runs whatever the seed: every prolongation-smoother option x {smoothed_aggregation, rootnode} x
+    {CSR, BSR 1x1, BSR 2x2} x {symmetric, nonsymmetric problem}: purity of A and B, same-seed reproducibility, format
+    comparison as in the random stream"""
+    pending = []
+    Dsym = np.ascontiguousarray(stencil2d(5, 4, eps=0.5) * (1.0 / 3.0))
+    Dnon = np.ascontiguousarray(stencil2d(5, 4, eps=0.5, conv=2.0) * 0.7)
+    n = Dsym.shape[0]
+    Bk = np.ones((n, 2))
+    Bk[:, 1] = np.arange(n) / (n - 1.0) + 0.01
+    for root in (False, True):
+        ctor = 'rn' if root else 'sa'
+        for j, sm in enumerate(smooth_grid(root)):
+            for D, fam, sym in ((Dsym, 'aniso', 'hermitian'), (Dnon, 'upwind', 'nonsymmetric')):
+                if fam == 'upwind' and j % 3 != 0:
+                    continue                          # the nonsymmetric problem on a third of the grid
+                kw = {'symmetry': sym, 'strength': ('symmetric', {'theta': 0.13}), 'aggregate': 'standard',
+                      'smooth': fit_symmetry(sm, sym, fam), 'improve_candidates': None, 'max_levels': 3, 'max_coarse': 2, 'keep': False}
+                if j % 2 == 0:
+                    kw['B'] = Bk.copy()
+                    if sym == 'nonsymmetric':
+                        kw['BH'] = Bk.copy()
+                elif root:
+                    kw['B'] = Bk.copy()               # rootnode wants at least blocksize candidates (BSR 2x2 below)
+                case = {'ctor': ctor, 'A': D, 'dtype': None, 'bs': 2, 'kw': kw, 'seed': 12345 + j,
+                        'tags': {'fam': fam, 'complex': False}}
+                eval_build_case(ctx, case, [('bsr', 1), ('bsr', 2)], pending)
+                ctx.feat('smoother_core')
+    flush_store(ctx, pending, q)
 
 
 def int64_case(ctx, rng):
@@ -1414,6 +1476,7 @@ def run(ctx):
     part_trace(ctx, rng, ctx.scale(60, 1500), q)
     for _ in range(ctx.scale(2, 10)):
         int64_case(ctx, rng)
+    smoother_core(ctx, q)
     build_stream(ctx, rng, ctx.scale(200, 7000), q)
     reuse_stream(ctx, rng, ctx.scale(450, 16000))
     if not ctx.quick:
